@@ -16,6 +16,12 @@ spec fn filters_view(v: Seq<FilterKind>) -> Seq<FilterV> {
     Seq::new(v.len(), |i: int| filter_view(v[i]))
 }
 
+/// plumbing: `filters_view(v)[i]` is the view of `v[i]` (gives the SMT solver the term `filters_view(v)[i]`)
+broadcast proof fn lemma_filters_view_index(v: Seq<FilterKind>, i: int)
+    requires 0 <= i < v.len()
+    ensures #![trigger filters_view(v), v[i]] filters_view(v)[i] == filter_view(v[i])
+{}
+
 spec fn policy_view(p: DownloadPolicy) -> PolicyV {
     match p {
         DownloadPolicy::NothingExcept(v) => PolicyV::NothingExcept(filters_view(v@)),
